@@ -3,3 +3,4 @@ import Homonim.Model.Blocks
 import Homonim.Model.WindowIO
 import Homonim.Model.Orient
 import Homonim.Model.Kernel
+import Homonim.Model.Resample
